@@ -1,0 +1,45 @@
+//go:build verif
+
+package dig
+
+import (
+	"math/rand"
+	"time"
+
+	"go.uber.org/dig/internal/digclock"
+	"go.uber.org/dig/internal/graph"
+)
+
+// This file is compiled only with the "verif" build tag. It adds test hooks
+// for the external verification harness and changes no existing behaviour.
+
+type verifGraph struct {
+	n   int
+	adj [][]int
+}
+
+func (g verifGraph) Order() int            { return g.n }
+func (g verifGraph) EdgesFrom(u int) []int { return g.adj[u] }
+
+// VerifIsAcyclic runs the internal cycle search on an explicit digraph with
+// nodes 0..n-1 and the given edges (u, v), in the order given.
+func VerifIsAcyclic(n int, edges [][2]int) (bool, []int) {
+	g := verifGraph{n: n, adj: make([][]int, n)}
+	for _, e := range edges {
+		g.adj[e[0]] = append(g.adj[e[0]], e[1])
+	}
+	return graph.IsAcyclic(g)
+}
+
+// VerifMockClock returns an Option installing a mock clock, and a function
+// advancing that clock.
+func VerifMockClock() (Option, func(time.Duration)) {
+	m := digclock.NewMock()
+	return setClock(m), m.Add
+}
+
+// VerifSeedRand returns an Option fixing the source of randomness used to
+// shuffle value groups.
+func VerifSeedRand(seed int64) Option {
+	return setRand(rand.New(rand.NewSource(seed)))
+}
